@@ -76,6 +76,12 @@ func seqJobList(prop, tier string) []*SeqJob {
 		return c11Jobs(tier)
 	case "C20":
 		return c20Jobs(tier)
+	case "C19":
+		return c19Jobs(tier)
+	case "C18":
+		return c18Jobs(tier)
+	case "C17":
+		return c17Jobs(tier)
 	}
 	return nil
 }
